@@ -4,7 +4,7 @@ P=$1; WT=$2; ID=$3; NEEDS=$4
 D=/verif/seeded/$ID; mkdir -p $D
 cd $WT || exit 2
 git diff -- pydcop > $D/patch.diff
-DEMO=$(ls demo_$P*.py test_demo_$P*.py 2>/dev/null | head -1)
+DEMO=$(ls demo*_$P*.py demo_$P*.py test_demo_$P*.py 2>/dev/null | head -1)
 cp $DEMO $D/ 2>/dev/null
 run_demo() { case "$DEMO" in test_*) /venv/bin/python -m pytest -q -p no:cacheprovider $DEMO >/dev/null 2>&1;; *) /venv/bin/python $DEMO >/dev/null 2>&1;; esac; echo $?; }
 WITH=$(run_demo)
